@@ -11,7 +11,7 @@ import numpy as np
 from harness import core
 from harness import rollout as R
 
-ENV_PROPS = ["C01", "C02", "C03", "C04", "C05", "C06", "C07", "C08", "C09", "C10", "C11", "C12", "C13", "C14", "C15"]
+ENV_PROPS = ["C01", "C02", "C03", "C04", "C05", "C06", "C07", "C08", "C09", "C10", "C11", "C12", "C13", "C14", "C15", "C17"]
 
 
 class Kit:
